@@ -24,7 +24,7 @@ prop(
 
 prop(
     "C16", "other",
-    "Contracts state every public list operation as the same operation on the plain row sequence rows(L). The real method bodies are executed symbolically over a static-shape frame model (0..3 rows; every cell and every distinct row label symbolic) and the VCs discharged by z3: a proof for all values and labels at those shapes (shape-bounded, not counted as an unbounded proof). The same contracts are checked at run time on every list class of every game over operation sequences (bounded).",
+    "Contracts state every public list operation as the same operation on the plain row sequence rows(L). The real method bodies are executed symbolically over a static-shape frame model (0..3 rows; every cell and every distinct row label symbolic) and the VCs discharged by z3: a proof for all values and labels at those shapes (shape-bounded, not counted as an unbounded proof). Every query / filter / sort contract also carries the frame clause 'the receiver keeps its rows, order, fields and labels'. The same contracts are checked at run time on every list class of every game over operation sequences (bounded).",
     "A2 pandas model (pyvc/frames.py, conformance-tested), A1, A3. Row counts beyond 3 only by the native bounded side.",
     "contract-based deductive verification over a shape-bounded symbolic frame model (z3) + run-time contract checking on all list classes",
     "DESIGN.md section 7 C16", uses_frames=True,
@@ -74,7 +74,7 @@ prop(
 
 prop(
     'C07', 'other',
-    'The tempo sweep of O2JMap.read_pkgs is verified as a loop-body unit from an arbitrary state (any number of tempo events): consuming an event advances the running time by the elapsed measures at the active tempo (240000/bpm ms per measure), stamps the event and makes its tempo active. Byte decoding (struct), package framing, hold pairing and whole files are checked by running the real reader on generated OJN bytes (tempo packages in any file order) against an independent exact-rational OJN interpreter (bounded).',
+    'The tempo sweep of O2JMap.read_pkgs is verified as a loop-body unit from an arbitrary state (any number of tempo events): consuming an event advances the running time by the elapsed measures at the active tempo (240000/bpm ms per measure), stamps the event and makes its tempo active. The WHOLE of read_pkgs (the stable sort by measure, the split into notes and tempo events, the measure->time dictionary, trailing tempo events, hold length from the tail's time, the result lists) is additionally executed from the real source for 0..2 tempo events x 0..1 hits x 0..1 holds with symbolic measures and tempos against an order-free integral statement (shape-bounded). Byte decoding (struct), package framing, hold pairing and whole files are checked by running the real reader on generated OJN bytes (tempo packages in any file order) against an independent exact-rational OJN interpreter (bounded).',
     'A1, A3 (struct), A5 (OJN layout in contracts/C07_bounded.py); state holds 1..3 tempo events',
     'contract-based deductive verification (loop-body unit, z3) + bounded run-time checking against an independent format interpreter',
     "DESIGN.md section 7 C07", explanation='loop-body unit proved for all states of the stated shape; byte-level reader only by the bounded stand-in',
